@@ -93,3 +93,16 @@ Example pause_hook_error_abnormal_result :
   interrupted _ _ (fst r) = true /\ icause _ _ (fst r) = Some CzPause /\
   late_pause _ _ (fst r) = false /\ intr_err _ _ (fst r) = false /\ no_bad (snd r) = true.
 Proof. vm_compute. repeat split; reflexivity. Qed.
+
+(* ------------------------------------------------------------------ axiom audit *)
+Print Assumptions reach_inv.
+Print Assumptions step_inv.
+Print Assumptions pc_state_typing.
+Print Assumptions quiescent_state.
+Print Assumptions paused_is_resumable.
+Print Assumptions done_is_idle.
+Print Assumptions stacks_aligned.
+Print Assumptions cleanup_never_stranded.
+Print Assumptions cbody_no_assert_exit.
+Print Assumptions interrupted_idle_cause_full.
+Print Assumptions interrupted_idle_cause.
